@@ -283,6 +283,11 @@ Floating ==
        \/ (c \in replied /\ M!ExchangeOK(c))
        \/ (~(c \in wrote /\ (conns[c].cut \/ conns[c].peerDown)) /\ M!ExchangeFail(c))
        \/ (M!DiscGrab(c) /\ NextApi(c) = "Metadata")
+       \* a metadata refresh the journal shows no answer for (the connection is closed first): it times out after one TTL
+       \/ (/\ conns[c].st = "busy" /\ conns[c].cur[1] = 0 /\ c \in wrote /\ ~conns[c].cut
+           /\ LET K == { k \in Window : Trace[k].ev \in {"reply", "cclose"} /\ Trace[k].conn = c } IN
+                K # {} /\ Trace[CHOOSE k \in K : \A j \in K : k <= j].ev = "cclose"
+           /\ M!Cut(c))
        \/ (/\ c \in replied /\ M!ConnectDone(c, dialTo[c])
            /\ conns'[c].st = "busy" => NextApi(c) = M!LegsR(conns'[c].cur[1])[conns'[c].cur[2]].api)
   \/ (\E k \in DialsFor(0) : M!DiscConnect(Trace[k].conn))
